@@ -22,7 +22,7 @@ def build(tier):
     obs = [e2obs.ob_validate(D, tier),
            e2obs.ob_munch("C04", D, label="C04.a/b")]
     for (n, l, k, leader, kind) in ([(2, 2, 2, True, "function"), (2, 2, 1, False, "set"), (1, 3, 3, True, "cpp_member")] if quick else
-                                    [(3, 3, 2, True, "function"), (3, 3, 2, False, "set"), (2, 4, 3, True, "cpp_member"), (2, 3, 4, False, "generic"), (3, 2, 1, True, "cpp_class")]):
+                                    [(3, 3, 2, True, "function"), (2, 2, 2, False, "set"), (2, 4, 3, True, "cpp_member"), (1, 3, 4, False, "generic"), (3, 2, 1, True, "cpp_class")]):
         obs.append(lay("indent", n, l, k, leader, kind, t))
     for (n, l, k, leader, kind) in ([(2, 2, 0, True, "function"), (1, 2, 2, True, "set")] if quick else
                                     [(3, 3, 0, True, "function"), (2, 3, 2, True, "set"), (2, 3, 1, True, "cpp_attr"), (2, 2, 0, False, "macro")]):
